@@ -15,7 +15,7 @@ typedef struct {
   void* param;
   long runs;
 } gf_t;
-#define MAXGF 256
+#define MAXGF 1024
 static gf_t gfs[MAXGF];
 static int ngf;
 static fiber_context_t* last_from[MAXT];
